@@ -119,10 +119,50 @@ type BoxError = Box<dyn std::error::Error + Send + Sync>;
 /// Builds via `streaming_body`, writes a payload, drops the writer, drains the body.
 /// Returns (vary values, content-encoding values, writer present, body bytes) or Err on panic.
 #[allow(clippy::type_complexity)]
+/// A builder call between `streaming_body(req)` and `build()`.
+#[derive(Clone, Copy, Debug, PartialEq, Eq)]
+pub enum BCall {
+    Chunk(usize),
+    Level(u32),
+}
+
+/// The call sequences a (chunk, level) pair is exercised with: the plain one, then (rotating on
+/// `k`) the same settings reached after earlier calls that set something else, in either order,
+/// or - when they are the defaults - without any call.
+fn call_sequence(chunk: usize, level: u32, k: usize) -> Vec<BCall> {
+    use BCall::*;
+    let other = if level == 0 { 6 } else { 0 };
+    match k % 8 {
+        0 | 1 => vec![Chunk(chunk), Level(level)],
+        2 => vec![Level(level), Chunk(chunk)],
+        3 => vec![Level(other), Chunk(1), Level(level), Chunk(chunk)],
+        4 => vec![Level(other), Level(level), Chunk(chunk)],
+        5 => vec![Chunk(chunk), Level(9), Level(other), Level(level)],
+        6 => vec![Level(level), Chunk(3), Chunk(chunk), Level(level)],
+        _ if chunk == 4096 && level == 6 => vec![],
+        _ if level == 6 => vec![Chunk(chunk)],
+        _ if chunk == 4096 => vec![Level(level)],
+        _ => vec![Chunk(chunk), Level(0), Level(level)],
+    }
+}
+
+fn show_calls(calls: &[BCall]) -> String {
+    if calls.is_empty() {
+        return "-".into();
+    }
+    calls
+        .iter()
+        .map(|c| match c {
+            BCall::Chunk(n) => format!("c{}", n),
+            BCall::Level(l) => format!("l{}", l),
+        })
+        .collect::<Vec<_>>()
+        .join(",")
+}
+
 fn build_and_drain(
     r: &PartsOrReq,
-    chunk: usize,
-    level: u32,
+    calls: &[BCall],
     payload: &[u8],
 ) -> Result<(Vec<Vec<u8>>, Vec<Vec<u8>>, bool, Vec<u8>), ()> {
     std::panic::catch_unwind(std::panic::AssertUnwindSafe(|| {
@@ -131,18 +171,19 @@ fn build_and_drain(
             b = b.header("accept-encoding", HeaderValue::from_bytes(v).unwrap());
         }
         let req = b.body(()).unwrap();
-        let (resp, w) = if r.as_parts {
+        let mut b = if r.as_parts {
             let (parts, _) = req.into_parts();
             http_serve::streaming_body(&parts)
-                .with_chunk_size(chunk)
-                .with_gzip_level(level)
-                .build::<Bytes, BoxError>()
         } else {
             http_serve::streaming_body(&req)
-                .with_chunk_size(chunk)
-                .with_gzip_level(level)
-                .build::<Bytes, BoxError>()
         };
+        for c in calls {
+            b = match c {
+                BCall::Chunk(n) => b.with_chunk_size(*n),
+                BCall::Level(l) => b.with_gzip_level(*l),
+            };
+        }
+        let (resp, w) = b.build::<Bytes, BoxError>();
         let vary = resp
             .headers()
             .get_all("vary")
@@ -208,10 +249,11 @@ pub fn c17(em: &mut Emit, thorough: bool, seed: u64) {
     }
     let payload: Vec<u8> = b"hello, hello, hello, streaming world ".repeat(8);
     let methods = ["GET", "HEAD", "POST", "PUT", "X-EXT"];
+    let mut case_no = 0usize;
     for (ae, want) in &aes {
         for level in 0..=9u32 {
             // not the full product with chunk sizes and methods: rotate them
-            let chunk = *rng.pick(&[1usize, 2, 4, 7, 4096, 65536]);
+            let chunk = *rng.pick(&[1usize, 2, 4, 7, 4096, 4096, 65536]);
             for (mi, m) in methods.iter().enumerate() {
                 if mi >= 3 && level % 3 != 0 {
                     continue;
@@ -222,12 +264,13 @@ pub fn c17(em: &mut Emit, thorough: bool, seed: u64) {
                         ae: ae.clone(),
                         as_parts,
                     };
+                    case_no += 1;
+                    let calls = call_sequence(chunk, level, case_no);
                     let line = format!(
-                        "SBUILD head={} ae={} chunk={} level={}",
+                        "SBUILD head={} ae={} calls={}",
                         if *m == "HEAD" { 1 } else { 0 },
                         opt_hex(ae.as_deref()),
-                        chunk,
-                        level
+                        show_calls(&calls)
                     );
                     // what the handler does with the writer: rotate through the patterns
                     let pattern = (level as usize + mi + as_parts as usize) % 5;
@@ -238,7 +281,7 @@ pub fn c17(em: &mut Emit, thorough: bool, seed: u64) {
                         _ => (&payload, &payload),
                     };
                     let payload: &[u8] = expect;
-                    match build_and_drain(&r, chunk, level, arg) {
+                    match build_and_drain(&r, &calls, arg) {
                         Err(()) => em.case(&line, "PANIC", "FAIL:panic", "panic"),
                         Ok((vary, ce, has_w, body)) => {
                             let ce_gzip = ce == vec![b"gzip".to_vec()];
